@@ -74,6 +74,26 @@ func (w *shutWorld) client(i int, phase string) {
 	case "half":
 		b := reqBytes("ok" + fmt.Sprint(i))
 		_, _ = c.Write(b[:len(b)/2])
+	case "pipelined":
+		// two requests in one write: the first one's handler runs until cancelled, the second one is read by the connection's
+		// read loop while the first is still being handled
+		_, _ = c.Write(append(reqBytes(fmt.Sprintf("slow%d", i)), reqBytes(fmt.Sprintf("ok%d", i))...))
+		n := 0
+		for {
+			fr, err := c.RecvFrame()
+			if err != nil {
+				break
+			}
+			var resp kmip.ResponseMessage
+			want := []string{fmt.Sprintf("slow%d", i), fmt.Sprintf("ok%d", i)}
+			if err := ttlv.UnmarshalTTLV(fr, &resp); err != nil || len(resp.BatchItem) != 1 || n >= 2 || string(resp.BatchItem[0].UniqueBatchItemID) != want[n] {
+				mc.Failf("bad-response: connection %d got an unexpected response (number %d)", i, n)
+			}
+			n++
+		}
+		w.clientGone[i].Store(true)
+		_ = c.Close()
+		return
 	case "fast", "slow", "late":
 		_, _ = c.Write(reqBytes(id))
 	case "nowrite-smallpipe":
@@ -230,6 +250,7 @@ func init() {
 	sd("shut-twice-fast", "two threads call Shutdown concurrently vs a connection with a fast handler", ShutCfg{Hook: "ok", Shutters: 2, Phases: []string{"fast"}})
 	sd("shut-closeerr-slow", "the listener's Close reports an error; a handler runs until cancelled", ShutCfg{Hook: "ok", CloseErr: true, Phases: []string{"slow"}})
 	sd("shut-closeerr-fast", "the listener's Close reports an error; fast handler", ShutCfg{Hook: "ok", CloseErr: true, Phases: []string{"fast"}})
+	sd("shut-pipelined", "Shutdown at any time vs a connection that pipelined two requests: the first handler runs until cancelled while the second request is already read", ShutCfg{Hook: "ok", Phases: []string{"pipelined"}})
 	sd("shut-2conn", "Shutdown at any time vs two connections (fast handler, slow handler)", ShutCfg{Hook: "ok", Phases: []string{"fast", "slow"}})
 	sd("shut-2conn-idle-fast", "Shutdown at any time vs two connections (idle, fast)", ShutCfg{Phases: []string{"idle", "fast"}})
 }
